@@ -22,7 +22,7 @@ fn tree_digest(dir: &std::path::Path) -> BTreeMap<String, String> {
 }
 
 /// run one generated history on an account; returns the multiset view (folder name -> sorted contents)
-pub async fn history(a: &mut LocalAccount, seed: u64) -> anyhow::Result<()> {
+pub async fn history(a: &mut LocalAccount, seed: u64, with_attachment: bool) -> anyhow::Result<()> {
     let mut rng = Rng::new(seed ^ 0x19);
     let default = *a.default_folder().await.unwrap().id();
     let mut ids = vec![];
@@ -39,7 +39,42 @@ pub async fn history(a: &mut LocalAccount, seed: u64) -> anyhow::Result<()> {
     if ids.len() > 2 { a.delete_secret(&ids[1], AccessOptions { folder: Some(default), ..Default::default() }).await?; }
     a.delete_folder(&f2).await?;
     if rng.chance(1, 2) { let _ = a.move_secret(&ids[0], &default, &f1, Default::default()).await; }
+    // an attachment (external file blob; its stored checksum is that of the randomised ciphertext, so it is left
+    // out where two independent runs are compared)
+    if with_attachment {
+        let dir = std::path::Path::new("/verif/run/tmp").join(format!("c19src-{seed}-{}", std::process::id()));
+        std::fs::create_dir_all(&dir)?;
+        let body: Vec<u8> = (0..rng.range(10, 5000)).map(|_| rng.below(256) as u8).collect();
+        let path = dir.join("attachment.bin"); std::fs::write(&path, &body)?;
+        let secret: sos_vault::secret::Secret = path.clone().try_into()?;
+        let meta = sos_vault::secret::SecretMeta::new("attachment".into(), secret.kind());
+        a.create_secret(meta, secret, AccessOptions { folder: Some(default), ..Default::default() }).await?;
+        let _ = std::fs::remove_dir_all(&dir);
+    }
     Ok(())
+}
+
+/// (decrypted attachments, servers, account preferences) of an account on a backend target
+async fn extras(a: &LocalAccount, target: &BackendTarget, id: &sos_core::AccountId) -> Result<(Vec<(String, String)>, Vec<String>, Vec<(String, String)>), String> {
+    use sos_core::RemoteOrigins;
+    use sos_preferences::PreferenceManager;
+    use sos_sync::StorageEventLogs;
+    let files = { let log = a.file_log().await.map_err(|e| e.to_string())?; let l = log.read().await; sos_reducers::FileReducer::new(&*l).reduce(None).await.map_err(|e| e.to_string())? };
+    let mut blobs = vec![];
+    for f in files.iter() {
+        let d = match a.download_file(f.vault_id(), f.secret_id(), f.file_name()).await { Ok(b) => hex::encode(&sha256(&b)[..8]), Err(e) => format!("error:{e}") };
+        blobs.push((f.file_name().to_string(), d));
+    }
+    blobs.sort();
+    let so = sos_backend::ServerOrigins::new(target.clone(), id);
+    let mut servers: Vec<String> = so.list_servers().await.map_err(|e| e.to_string())?.iter().map(|o| format!("{}|{}", o.name(), o.url())).collect();
+    servers.sort();
+    let mut pm = sos_backend::Preferences::new(target.clone());
+    pm.load_account_preferences(&[sos_core::PublicIdentity::new(*id, "verif".into())]).await.map_err(|e| format!("load prefs: {e}"))?;
+    let mut prefs = vec![];
+    if let Some(p) = pm.account_preferences(id).await { let p = p.lock().await; for (k, v) in p.iter() { prefs.push((k.clone(), v.to_string())); } }
+    prefs.sort();
+    Ok((blobs, servers, prefs))
 }
 
 async fn snapshot(a: &mut LocalAccount) -> Result<(BTreeMap<String, (u64, String, Vec<String>)>, sos_sync::SyncStatus, usize), String> {
@@ -61,9 +96,27 @@ pub async fn run_case(seed: u64, rep: &mut Report) -> anyhow::Result<()> {
     let synced = seed % 2 == 0;
     {
         let mut a = w.devices[0].lock().await;
-        history(&mut a, seed).await?;
+        history(&mut a, seed, true).await?;
     }
     if synced { for _ in 0..3 { let r = w.sync(0).await; script.push(format!("sync -> {:?}", r)); } }
+    // servers and account preferences stored next to the account
+    let fs_target = { let a = w.devices[0].lock().await; a.backend_target().await };
+    {
+        use sos_core::RemoteOrigins;
+        use sos_preferences::{Preference, PreferenceManager};
+        let mut so = sos_backend::ServerOrigins::new(fs_target.clone(), &w.account_id);
+        so.add_server(sos_core::Origin::new("verif-server".into(), "https://sync.example.com:5053/".parse().unwrap())).await.map_err(|e| anyhow::anyhow!(e.to_string()))?;
+        if seed % 3 == 0 { so.add_server(sos_core::Origin::new("backup".into(), "http://10.0.0.7:5053/".parse().unwrap())).await.map_err(|e| anyhow::anyhow!(e.to_string()))?; }
+        let mut pm = sos_backend::Preferences::new(fs_target.clone());
+        pm.new_account(&w.account_id).await.map_err(|e| anyhow::anyhow!(e.to_string()))?;
+        if let Some(p) = pm.account_preferences(&w.account_id).await {
+            let mut p = p.lock().await;
+            p.insert("verif.string".into(), Preference::String(format!("value-{seed}"))).await.map_err(|e| anyhow::anyhow!(e.to_string()))?;
+            p.insert("verif.flag".into(), Preference::Bool(seed % 2 == 0)).await.map_err(|e| anyhow::anyhow!(e.to_string()))?;
+            p.insert("verif.list".into(), Preference::StringList(vec!["a".into(), "ü".into()])).await.map_err(|e| anyhow::anyhow!(e.to_string()))?;
+        }
+    }
+    let extras_before = { let a = w.devices[0].lock().await; extras(&a, &fs_target, &w.account_id).await };
     let (before, status_before, devices_before) = { let mut a = w.devices[0].lock().await; snapshot(&mut a).await.map_err(|e| anyhow::anyhow!(e))? };
     { let mut a = w.devices[0].lock().await; a.sign_out().await?; }
     let dir = w.tmp.path().join("dev0");
@@ -101,6 +154,21 @@ pub async fn run_case(seed: u64, rep: &mut Report) -> anyhow::Result<()> {
         rep.spec_fail(&format!("c19-decrypted-content-differs-after-upgrade-{what}"), json!({"case_seed": seed, "script": script, "before": before.len(), "after": after.len()}), "folders served after the upgrade differ from those before");
     }
     if devices_after != devices_before { rep.spec_fail("c19-trusted-devices-differ-after-upgrade", json!({"case_seed": seed}), "trusted device set differs"); }
+    // attachments, servers, preferences
+    {
+        let db_target = up_acct.backend_target().await;
+        let extras_after = extras(&up_acct, &db_target, &w.account_id).await;
+        match (&extras_before, &extras_after) {
+            (Ok(b), Ok(a)) => {
+                if b.0.is_empty() { rep.spec_fail("c19-harness-no-attachment", json!({"case_seed": seed}), "the generated account has no attachment"); }
+                if a.0 != b.0 { rep.spec_fail("c19-attachments-differ-after-upgrade", json!({"case_seed": seed, "before": b.0, "after": a.0}), "attachment blobs (decrypted) differ after the upgrade"); }
+                if a.1 != b.1 { rep.spec_fail("c19-servers-differ-after-upgrade", json!({"case_seed": seed, "before": b.1, "after": a.1}), "server list differs after the upgrade"); }
+                if a.2 != b.2 { rep.spec_fail("c19-preferences-differ-after-upgrade", json!({"case_seed": seed, "before": b.2, "after": a.2}), "account preferences differ after the upgrade"); }
+            }
+            (Err(e), _) => rep.spec_fail("c19-harness-extras-error-before", json!({"case_seed": seed}), e),
+            (_, Err(e)) => rep.spec_fail("c19-extras-unreadable-after-upgrade", json!({"case_seed": seed}), e),
+        }
+    }
     // 3. the upgraded device still syncs with its server without conflict
     let up_acct = std::sync::Arc::new(tokio::sync::Mutex::new(up_acct));
     if synced {
@@ -124,7 +192,7 @@ pub async fn run_case(seed: u64, rep: &mut Report) -> anyhow::Result<()> {
     for backend in ["fs", "db"] {
         let wb = World::new(1, backend).await?;
         let mut a = wb.devices[0].lock().await;
-        history(&mut a, seed).await?;
+        history(&mut a, seed, false).await?;
         let mut m: BTreeMap<String, (u64, String, Vec<String>)> = BTreeMap::new();
         for s in a.list_folders().await? {
             let v = served(&mut a, s.id()).await.map_err(|e| anyhow::anyhow!(e))?;
@@ -135,7 +203,7 @@ pub async fn run_case(seed: u64, rep: &mut Report) -> anyhow::Result<()> {
         views.push((m, st.folders.len(), st.account.1.len(), st.identity.1.len()));
     }
     rep.case(&format!("both-backends:{seed}"), true);
-    if views[0] != views[1] { rep.spec_fail("c19-same-history-differs-between-backends", json!({"case_seed": seed}), "the same history gives different folders / log lengths on the file system and on sqlite"); }
+    if views[0] != views[1] { rep.spec_fail("c19-same-history-differs-between-backends", json!({"case_seed": seed, "fs": format!("{:?}", views[0]), "db": format!("{:?}", views[1])}), "the same history gives different folders / log lengths on the file system and on sqlite"); }
     if seed % 5 == 0 { rep.sample(json!({"seed": seed, "synced": synced, "folders": before.len()})); }
     Ok(())
 }
